@@ -6,6 +6,7 @@ import Orx.GenThms.Arr
 import Orx.GenThms.Range
 import Orx.GenThms.New
 import Orx.GenThms.Own
+import Orx.GenThms.ProtoBuf
 /-! # C17 Same behaviour in debug and optimized builds; std preconditions respected
 
 The model has no build mode: after the `fix:` commits no arithmetic of the crate can overflow and no std
@@ -127,6 +128,21 @@ theorem source_array_owner_code_never_faults (N f : Nat) (o : OSt) (ρ' : Type) 
   · rw [arr_fetch_n N n f o ρ' hv hw]; intro e; simp
   · rw [arr_fetch_one N f o ρ' hv (fun h p h1 h2 => hu p (by omega) (by omega))]; intro e; split <;> simp
 
+/-- **std's contract of `ExactSizeIterator` is respected by the owning chunk iterator** (`Taken`, chunks of a consumed Vec /
+array): `size_hint` is `(len - idx, Some(len - idx))`, exactly what is left -/
+theorem source_taken_size_hint_is_exact (cap b len idx f : Nat) (s : OSt) (ρ' : Type) (hi : idx ≤ len) :
+    (Taken.size_hint f (taken cap b len idx) : PF ρ' _) s = .ok (.norm (len - idx, some (len - idx))) s :=
+  taken_size_hint cap b len idx f s ρ' hi
+
 end SourceOwn
+
+/-- **… and by the wrapper's chunk iterator** (`BufferedIter<'a, T>` of `buffered/iter.rs`): `size_hint` is
+`(initial_len - current_idx, Some(..))` — what `len()` reports (`Props/C03.source_chunk_len_is_what_is_left`). The pinned crate
+kept `Iterator`'s default `(0, None)` here, so that `chunk.values.take(2).len()` panicked in every build profile: defect D16,
+repaired by `bfb3855` -/
+theorem source_wrapper_chunk_size_hint_is_exact {ρ' : Type} (k : Nat) (it : RSP.BufferedIter) (h : it.current_idx ≤ it.initial_len) :
+    (GenP.ChunkIt.size_hint k it : RSP.PF ρ' _) = .ret (.norm (it.initial_len - it.current_idx, some (it.initial_len - it.current_idx))) ∧
+    (GenP.ChunkIt.len k it : RSP.PF ρ' _) = .ret (.norm (it.initial_len - it.current_idx)) :=
+  ⟨GenThms.Proto.chunk_size_hint k it h, GenThms.Proto.chunk_len k it h⟩
 
 end Orx.Props.C17
